@@ -73,6 +73,10 @@ THIRD = {
                 {"type": "open", "mailbox": "$mailbox"},
                 {"type": "add", "phase": "pake", "body": "$honest_pake"},
                 {"type": "add", "phase": "version", "body": JUNK}],
+    # no PAKE at all: only application phases that nobody can decrypt (they may arrive before or after the genuine key exchange)
+    "latejunk": [{"type": "bind", "appid": "appid", "side": "third"}, {"type": "claim", "nameplate": "4"},
+                 {"type": "open", "mailbox": "$mailbox"},
+                 {"type": "add", "phase": "0", "body": JUNK}, {"type": "add", "phase": "1", "body": JUNK}],
     # malformed PAKE bodies (not JSON / bad hex / not a group element / wrong side byte)
     "badpake-notjson": [{"type": "bind", "appid": "appid", "side": "third"}, {"type": "claim", "nameplate": "4"},
                         {"type": "open", "mailbox": "$mailbox"}, {"type": "add", "phase": "pake", "body": hx(b"notjson")}],
@@ -191,6 +195,12 @@ def scenarios(tier):
     S.append(mk("pair-same-wsclosing-dev2", cfg("set", "same", "delegate", drops=(1, 0) if q else (1, 1), fine=(0,) if q else (0, 1), wsclosing=True, explored=WS),
                 dev_bound=2 if q else 3, max_depth=250))
     S.append(mk("pair-input-same-wsclosing-dev2", cfg("input-short", "same", "deferred", drops=(1, 0), fine=(0,), wsclosing=True, explored=WS),
+                dev_bound=2 if q else 3, max_depth=250))
+    # the server's welcome on a reconnection carries an error while the wormhole is already happy
+    S.append(mk("pair-same-unwelcome-on-reconnect-dev2", cfg("set", "same", "delegate", drops=(1, 0), fine=(0,), welcome_later={"error": "retired"}),
+                dev_bound=2 if q else 3, max_depth=250))
+    # a third side that posts undecryptable application phases, before or after the honest key exchange has been verified
+    S.append(mk("third-latejunk-pair-uncrowded-dev2", cfg("set", "same", "delegate", drops=(0, 0), fine=(0,), sends=1, raw="latejunk", crowd_limit=None),
                 dev_bound=2 if q else 3, max_depth=250))
     # welcome variants
     for flow in ("set", "alloc", "input-short"):
